@@ -61,6 +61,9 @@ pub open spec fn hyrax_commit_one(ck: &HyraxUniversalParams, p: &LabeledML, c: &
 pub open spec fn hyrax_draws(ps: Seq<&LabeledML>, k: nat) -> nat decreases k { if k == 0 { 0 } else { hyrax_draws(ps, (k - 1) as nat) + vstd::arithmetic::power2::pow2((ps[k - 1].polynomial.num_vars / 2) as nat) } }
 pub open spec fn hyrax_admissible(ck: &HyraxUniversalParams, p: &LabeledML) -> bool { p.polynomial.num_vars % 2 == 0 && p.polynomial.num_vars <= ck.com_key@.len() }
 
+// the i-th generator: hash-to-curve of (PROTOCOL_NAME, i[, j]), cofactor cleared - a deterministic function of i  [the sampling closure is outside the verified text]
+pub uninterp spec fn hyrax_gen(i: nat) -> AS;
+#[verifier::external_body] pub fn hyrax_sample_point(i: u64) -> (g: G1) ensures g@ == hyrax_gen(i as nat) { unimplemented!() }
 pub struct HyraxPC;
 impl HyraxPC {
 //@stub from=hyrax.rs id=hyrax.pedersen_commit
@@ -124,6 +127,25 @@ impl HyraxPC {
                 vstd::arithmetic::power2::lemma_pow2_strictly_increases(n as nat, 64); vstd::arithmetic::power2::lemma2_to64();
                 assert(dim * dim == vstd::arithmetic::power2::pow2(n as nat));
             }
+//@end
+
+//@fn id=hyrax.setup file=poly-commit/src/hyrax/mod.rs scope="impl<G, P> PolynomialCommitment<G::ScalarField, P> for HyraxPC<G, P>" name=setup props=C09,C19,C17
+    fn setup(_max_degree: usize, num_vars: Option<usize>, _rng: &mut Rng) -> (res: Result<HyraxUniversalParams, Error>)
+    requires
+        num_vars is Some ==> num_vars->Some_0 < 126,
+    ensures
+        (res is Err) == (num_vars is None || num_vars->Some_0 % 2 == 1),   // name=hyrax.setup.odd_or_missing_number_of_variables_refused props=C17
+        // one generator per column of the 2^(n/2) x 2^(n/2) matrix, plus h: each derived from its index
+        res is Ok ==> res->Ok_0.com_key@.len() == vstd::arithmetic::power2::pow2((num_vars->Some_0 / 2) as nat),   // name=hyrax.setup.square_root_many_generators props=C09,C19
+        res is Ok ==> (forall|i: int| 0 <= i < res->Ok_0.com_key@.len() ==> (#[trigger] res->Ok_0.com_key@[i])@ == hyrax_gen(i as nat))
+            && res->Ok_0.h@ == hyrax_gen(res->Ok_0.com_key@.len()),   // name=hyrax.setup.generators_derived_from_index props=C09
+//@body
+//@rw 1 /(?s)ark_std::cfg_into_iter!\(0u64\.\.dim \+ 1\)\s*\.map\(\|i\| \{.*?point\.mul_by_cofactor_to_group\(\)\s*\}\)/ => (0u64..dim + 1).map(|i: u64| -> (g: G1) ensures g@ == hyrax_gen(i as nat) { hyrax_sample_point(i) })
+//@rw 1 /let dim = 1 << n \/ 2;/ => proof { vstd::arithmetic::power2::lemma_pow2_strictly_increases((n / 2) as nat, 63); vstd::arithmetic::power2::lemma_pow2_strictly_increases(63, 64); vstd::arithmetic::power2::lemma2_to64(); vstd::arithmetic::power2::lemma_pow2_pos((n / 2) as nat); vstd::bits::lemma_u64_shl_is_mul(1u64, (n / 2) as u64); }
+        let dim: u64 = 1 << n / 2;
+//@rw 1 /let points: Vec<_> =/ => let points: Vec<G1> =
+//@rw 1 /G::Group::normalize_batch/ => G1::normalize_batch
+//@rw 1 /let h: G = points\.pop\(\)\.unwrap\(\);/ => let h: G1Affine = points.pop().unwrap_abort();
 //@end
 
 //@fn id=hyrax.commit.parallel file=poly-commit/src/hyrax/mod.rs scope="impl<G, P> PolynomialCommitment<G::ScalarField, P> for HyraxPC<G, P>" name=commit props=C07,C08,C19,C17
